@@ -223,10 +223,16 @@ impl Tree {
     }
 }
 
-/// Create a fresh scratch root below VERIF_TMP (or /verif/tmp).
-pub fn fresh_root(tag: &str) -> PathBuf {
-    let base = std::env::var("VERIF_TMP").ok().filter(|s| !s.is_empty()).unwrap_or_else(|| "/verif/tmp".to_string());
-    let base = PathBuf::from(base);
+/// Create a fresh scratch root below VERIF_TMP, else below the directory of the
+/// result file (the driver's per-run temp dir, which it removes afterwards),
+/// else below /verif/tmp.
+pub fn fresh_root(tag: &str, out: Option<&str>) -> PathBuf {
+    let base = std::env::var("VERIF_TMP")
+        .ok()
+        .filter(|s| !s.is_empty())
+        .map(PathBuf::from)
+        .or_else(|| out.and_then(|o| Path::new(o).parent().map(|p| p.to_path_buf())).filter(|p| p.is_dir()))
+        .unwrap_or_else(|| PathBuf::from("/verif/tmp"));
     std::fs::create_dir_all(&base).expect("create tmp base");
     let base = base.canonicalize().expect("canonical tmp base");
     for attempt in 0..1000u32 {
